@@ -839,7 +839,7 @@ func TestWorker(t *testing.T) {
 		}
 	}
 	if *fMode == "replay" {
-		sim.HangAfter = 8 * time.Second
+		sim.HangAfter = 30 * time.Second // a single case takes milliseconds; generous, because the machine may be busy
 	}
 	sim.StartWatchdog(out, finish)
 	sim.SetSite(site)
